@@ -509,3 +509,135 @@ Section ForLimit.
         unfold ret. now rewrite <- app_assoc.
   Qed.
 End ForLimit.
+
+(* ------------------------------------------------------------------ crossover: the defaultdict of positions by type *)
+(* what `for idx, node in enumerate(ind[1:], 1): if keep(node): types[node.ret].append(idx)` builds *)
+Definition dd_step (keep : node -> bool) (d : dd) (p : nat * node) : dd :=
+  if keep (snd p) then dd_append d (nret (snd p)) (Z.of_nat (fst p)) else d.
+Definition dd_build (keep : node -> bool) (e : list (nat * node)) (d : dd) : dd := fold_left (dd_step keep) e d.
+
+Section ForDD.
+  Variable keep : node -> bool.
+  Variable body : Z * node -> dd -> M dd.
+  Hypothesis Hbody : forall i nd d ds,
+    body (Z.of_nat i, nd) d ds = ret (if keep nd then dd_append d (nret nd) (Z.of_nat i) else d) ds.
+  Lemma for_dd : forall e d ds, for_each (map zfst e) body d ds = ret (dd_build keep e d) ds.
+  Proof.
+    induction e as [|[i nd] e IH]; intros d ds; cbn [map for_each]; [reflexivity|].
+    unfold bind. unfold zfst at 1. cbn [fst snd]. rewrite Hbody. unfold ret at 1. rewrite IH. reflexivity.
+  Qed.
+End ForDD.
+
+Lemma mem_ty_app t a b : mem_ty t (a ++ b) = mem_ty t a || mem_ty t b.
+Proof. unfold mem_ty. apply existsb_app. Qed.
+
+Lemma dd_keys_append d k x :
+  dd_keys (dd_append d k x) = if mem_ty k (dd_keys d) then dd_keys d else dd_keys d ++ [k].
+Proof.
+  unfold dd_keys. induction d as [|[k' v] r IH]; cbn [dd_append map fst mem_ty existsb]; [reflexivity|].
+  rewrite (N.eqb_sym k k'). destruct (N.eqb k' k) eqn:E; cbn [map fst orb]; [reflexivity|].
+  fold (mem_ty k (map fst r)). rewrite IH. destruct (mem_ty k (map fst r)); reflexivity.
+Qed.
+
+Lemma dd_get_append d k x t :
+  dd_get (dd_append d k x) t = if N.eqb k t then dd_get d t ++ [x] else dd_get d t.
+Proof.
+  induction d as [|[k' v] r IH]; cbn [dd_append dd_get].
+  - destruct (N.eqb k t); reflexivity.
+  - destruct (N.eqb k' k) eqn:E; cbn [dd_get].
+    + apply N.eqb_eq in E. subst k'. destruct (N.eqb k t); reflexivity.
+    + destruct (N.eqb k' t) eqn:E2; [|exact IH].
+      apply N.eqb_eq in E2. subst k'. rewrite (N.eqb_sym k t), E. reflexivity.
+Qed.
+
+Lemma dd_mem_keys d t : dd_mem d t = mem_ty t (dd_keys d).
+Proof.
+  unfold dd_keys, mem_ty. induction d as [|[k v] r IH]; cbn [dd_mem map fst existsb]; [reflexivity|].
+  now rewrite IH, (N.eqb_sym t k).
+Qed.
+
+Lemma mem_ty_filter_neq x t l : mem_ty t (filter (fun y => negb (N.eqb x y)) l) = negb (N.eqb x t) && mem_ty t l.
+Proof.
+  unfold mem_ty. induction l as [|y l IH]; cbn [filter existsb]; [now rewrite andb_false_r|].
+  destruct (N.eqb x y) eqn:E; cbn [negb existsb]; rewrite IH.
+  - apply N.eqb_eq in E. subst y. rewrite (N.eqb_sym t x). destruct (N.eqb x t); reflexivity.
+  - destruct (N.eqb t y) eqn:E2; [|reflexivity].
+    apply N.eqb_eq in E2. subst y. rewrite E. reflexivity.
+Qed.
+
+Lemma mem_ty_dedup t l : mem_ty t (dedup l) = mem_ty t l.
+Proof.
+  induction l as [|x l IH]; [reflexivity|]. cbn [dedup]. unfold mem_ty at 1. cbn [existsb].
+  fold (mem_ty t (filter (fun y => negb (N.eqb x y)) (dedup l))).
+  rewrite mem_ty_filter_neq, IH. unfold mem_ty at 2. cbn [existsb]. fold (mem_ty t l).
+  rewrite (N.eqb_sym t x). destruct (N.eqb x t); reflexivity.
+Qed.
+
+Lemma dedup_snoc l k : dedup (l ++ [k]) = if mem_ty k l then dedup l else dedup l ++ [k].
+Proof.
+  induction l as [|x l IH]; [reflexivity|]. cbn [app dedup]. rewrite IH.
+  unfold mem_ty at 2. cbn [existsb]. fold (mem_ty k l). rewrite (N.eqb_sym k x).
+  destruct (N.eqb x k) eqn:E; cbn [orb].
+  - apply N.eqb_eq in E. subst k. destruct (mem_ty x l); [reflexivity|].
+    rewrite filter_app. cbn [filter]. rewrite N.eqb_refl. cbn [negb]. now rewrite app_nil_r.
+  - destruct (mem_ty k l); [reflexivity|].
+    rewrite filter_app. cbn [filter]. rewrite E. reflexivity.
+Qed.
+
+(* keys in order of first appearance, the positions filed under a key, membership *)
+Lemma dd_build_spec keep : forall e,
+  dd_keys (dd_build keep e []) = dedup (map nret (filter keep (map snd e))) /\
+  forall t, dd_get (dd_build keep e []) t =
+            map Z.of_nat (map fst (filter (fun p => keep (snd p) && N.eqb (nret (snd p)) t) e)).
+Proof.
+  induction e as [|[i nd] e [IHk IHg]] using rev_ind; [split; reflexivity|].
+  unfold dd_build in *. rewrite fold_left_app. set (D := fold_left (dd_step keep) e []) in *.
+  cbn [fold_left]. unfold dd_step. cbn [fst snd].
+  rewrite map_app, !filter_app, map_app. cbn [map filter snd].
+  destruct (keep nd) eqn:Ek; cbn [andb map app].
+  - split.
+    + rewrite dd_keys_append, IHk, dedup_snoc, mem_ty_dedup. reflexivity.
+    + intro t. rewrite dd_get_append, IHg, filter_app. cbn [filter fst snd]. rewrite Ek. cbn [andb].
+      destruct (N.eqb (nret nd) t); rewrite !map_app; cbn [map]; [reflexivity|now rewrite app_nil_r].
+  - split.
+    + now rewrite app_nil_r.
+    + intro t. rewrite IHg, filter_app. cbn [filter fst snd]. rewrite Ek. cbn [andb]. now rewrite app_nil_r.
+Qed.
+
+Lemma snd_tl_enumerate {A} (l : list A) : map snd (tl (enumerate l)) = tl l.
+Proof.
+  unfold enumerate. destruct l as [|x l]; [reflexivity|]. cbn [length seq combine tl].
+  generalize 1%nat. induction l as [|y l IH]; intro k; [reflexivity|]. cbn [length seq combine map snd].
+  now rewrite IH.
+Qed.
+
+Lemma dd_build_model keep l :
+  let d := dd_build keep (tl (enumerate l)) [] in
+  dd_keys d = type_keys keep l /\
+  (forall t, dd_get d t = map Z.of_nat (idx_of_type keep l t)) /\
+  (forall t, dd_mem d t = mem_ty t (type_keys keep l)).
+Proof.
+  cbv zeta. destruct (dd_build_spec keep (tl (enumerate l))) as [Hk Hg].
+  rewrite snd_tl_enumerate in Hk. unfold type_keys, idx_of_type.
+  split; [exact Hk|]. split; [exact Hg|]. intro t. now rewrite dd_mem_keys, Hk.
+Qed.
+
+Lemma dd_build_ext k1 k2 e d : (forall n, k1 n = k2 n) -> dd_build k1 e d = dd_build k2 e d.
+Proof.
+  intro H. unfold dd_build. revert d. induction e as [|p e IH]; intro d; [reflexivity|]. cbn [fold_left].
+  unfold dd_step at 2 4. rewrite H. apply IH.
+Qed.
+
+Lemma range2_seq (n : nat) : range2 1 (Z.of_nat n) = map Z.of_nat (seq 1 (n - 1)).
+Proof.
+  unfold range2, py_range3, range_count. cbn [Z.ltb Z.compare].
+  destruct (1 <? Z.of_nat n) eqn:E.
+  - rewrite Z.div_1_r. replace (Z.to_nat (Z.of_nat n - 1 - 1 + 1)) with (n - 1)%nat by lia.
+    rewrite <- seq_shift, !map_map. apply map_ext. intro i. lia.
+  - replace (n - 1)%nat with 0%nat by lia. reflexivity.
+Qed.
+
+Lemma eq0_is_term n : eq0 (Z.of_nat (arity n)) = is_term n.
+Proof. unfold eq0, is_term. destruct (0 =? Z.of_nat (arity n)) eqn:E; destruct (Nat.eqb (arity n) 0) eqn:E2; lia. Qed.
+Lemma lt0_is_prim n : lt0 (Z.of_nat (arity n)) = is_prim n.
+Proof. unfold lt0, is_prim. destruct (0 <? Z.of_nat (arity n)) eqn:E; destruct (0 <? arity n)%nat eqn:E2; lia. Qed.
